@@ -263,10 +263,17 @@ fn comp_src(c: &Comp, cfg: Config, ch: &mut Chooser, out: &mut String, gaps: &mu
                 out.push(' '); // space between the name and the brace
             }
             out.push('{');
-            let pad = ch.pick(2) == 1;
-            if pad {
-                out.push(' ');
-            }
+            let pad = match ch.pick(3) {
+                1 => {
+                    out.push(' ');
+                    true
+                }
+                2 => {
+                    out.push_str(" [- c -] ");
+                    false
+                }
+                _ => false,
+            };
             if q.lock {
                 out.push('=');
                 if ch.pick(2) == 1 {
@@ -277,10 +284,12 @@ fn comp_src(c: &Comp, cfg: Config, ch: &mut Chooser, out: &mut String, gaps: &mu
             if let Some(u) = q.unit {
                 // `%` (default), ` % `, or a space instead of `%` (advanced units: numeric value, extended parser only)
                 let numeric = !matches!(q.val, Val::Text(_));
-                let arity = if cfg.extended && numeric { 3 } else { 2 };
+                // 0 `%`, 1 ` % `, 2 `% [- c -]` (a comment inside the padding), 3 a space instead of `%`
+                let arity = if cfg.extended && numeric { 4 } else { 3 };
                 match ch.pick(arity) {
                     0 => out.push('%'),
                     1 => out.push_str(" % "),
+                    2 => out.push_str("% [- c -]"),
                     _ => out.push(' '),
                 }
                 out.push_str(u);
@@ -302,15 +311,18 @@ fn text_src(t: &str, ch: &mut Chooser, out: &mut String, gaps: &mut Vec<usize>, 
     // words separated by single spaces; a space may be spelled as a line break,
     // a word's first character may be spelled with a backslash
     let mut first = true;
+    let mut prev = "";
     for w in t.split(' ') {
         if !first {
-            // never break before a word that would start a new kind of line
-            let risky = w.is_empty() || w.starts_with('>') || w.starts_with('=') || w.starts_with('-');
+            // never break before a word that would start a new kind of line, nor right after a
+            // stray marker (a marker followed by a line break instead of a blank is diagnosed)
+            let after_marker = prev.ends_with(['@', '#', '~', '-', '+', '?', '&']);
+            let risky = after_marker || w.is_empty() || w.starts_with('>') || w.starts_with('=') || w.starts_with('-');
             if allow_break && !risky && !out.is_empty() && !out.ends_with('\n') && ch.pick(2) == 1 {
                 out.push('\n');
             } else {
                 out.push(' ');
-                if !w.is_empty() {
+                if !w.is_empty() && !after_marker {
                     gaps.push(out.len());
                     // a block comment glued to the next word (the space before it survives)
                     match ch.pick(3) {
@@ -326,6 +338,7 @@ fn text_src(t: &str, ch: &mut Chooser, out: &mut String, gaps: &mut Vec<usize>, 
             out.push('\\');
         }
         out.push_str(w);
+        prev = w;
     }
 }
 
